@@ -6480,20 +6480,30 @@ func (c *linkerContext) generateChunkCSS(chunkIndex int, chunkWaitGroup *sync.Wa
 		}
 		chunk.jsonMetadataChunkCallback = func(finalOutputSize int) helpers.Joiner {
 			finalRelDir := c.fs.Dir(chunk.finalRelPath)
-			isFirst := true
+
+			// A file can be in this chunk more than once (e.g. when it's imported
+			// with different conditions). Generate only one entry for it (a JSON
+			// object must not have duplicate keys) that covers all of its bytes.
+			var metaOrder []uint32
+			metaBytes := make(map[uint32]int)
 			for i, compileResult := range compileResults {
 				if !compileResult.sourceIndex.IsValid() {
 					continue
 				}
-				if isFirst {
-					isFirst = false
-				} else {
+				sourceIndex := compileResult.sourceIndex.GetIndex()
+				if _, ok := metaBytes[sourceIndex]; !ok {
+					metaOrder = append(metaOrder, sourceIndex)
+				}
+				metaBytes[sourceIndex] += c.accurateFinalByteCount(pieces[i], finalRelDir)
+			}
+			for i, sourceIndex := range metaOrder {
+				if i > 0 {
 					jMeta.AddString(",")
 				}
 				jMeta.AddString(fmt.Sprintf(
 					c.options.MetafileFormat.MaybeRemoveWhitespace("\n        %s: {\n          \"bytesInOutput\": %d\n        }"),
-					helpers.QuoteForJSON(c.graph.Files[compileResult.sourceIndex.GetIndex()].InputFile.Source.PrettyPaths.Select(c.options.MetafilePathStyle), c.options.ASCIIOnly),
-					c.accurateFinalByteCount(pieces[i], finalRelDir)))
+					helpers.QuoteForJSON(c.graph.Files[sourceIndex].InputFile.Source.PrettyPaths.Select(c.options.MetafilePathStyle), c.options.ASCIIOnly),
+					metaBytes[sourceIndex]))
 			}
 			if len(compileResults) > 0 {
 				jMeta.AddString(c.options.MetafileFormat.MaybeRemoveWhitespace("\n      "))
